@@ -356,6 +356,7 @@ pub fn op_strategy(p: &Profile) -> BoxedStrategy<Op> {
         Via::ToLeanStr,
         Via::ToLeanCow,
         Via::ToLeanBox,
+        Via::TryToLeanString,
     ];
     let ctor = prop_oneof![
         1 => slot().prop_map(|slot| Op::New { slot }),
